@@ -427,22 +427,19 @@ theorem hostSplit_congr (sp : Str → Option (Str × Str)) {nu nv : Str} (hwu : 
   unfold hostSplit splitSuffixParsed
   rw [e, hh]
 
-/-- **forward, `suffix_aware = True`, the hypotheses only where they are needed**: when the two
-hosts are equal nothing is asked of `split_suffix`; when `v`'s host is a strict subdomain, the
-hosts are names, C08's clause holds for both and the public suffix is the same.  (Generalises
-`stems_prefix_of_under_partial`.) -/
-theorem stems_prefix_of_under_sub (sp : Str → Option (Str × Str)) (u v : Parts)
+/-- forward, `suffix_aware = True`, the hypotheses only where they are needed, for any reading
+`segs` of the path segments (core of `stems_prefix_of_under_sub` and of its raw form) -/
+theorem keyG_prefix_of_under_sub (sp : Str → Option (Str × Str)) (segs : Str → List Str)
+    (u v : Parts)
     (hwu : wfNetloc u.netloc = true) (hwv : wfNetloc v.netloc = true)
     (hnu : noUserinfo u.netloc = true)
     (hsub : strictSub (specHost u.netloc) (specHost v.netloc) = true →
       labelHost (specHost u.netloc) = true ∧ labelHost (specHost v.netloc) = true ∧
         SplitLaw sp u.netloc ∧ SplitLaw sp v.netloc ∧ SameSuffixSplit sp u.netloc v.netloc)
-    (h : Under u v) :
-    cleanTrailingPath (lruStems sp true u) <+: cleanTrailingPath (lruStems sp true v) := by
-  rw [clean_lruStems, clean_lruStems]
-  apply List.IsPrefix.map
-  rw [keyStems_prefix_iff sp true u v hnu hwu hwv]
-  apply under_to_nested id u v (fun e => by rw [e]; exact List.prefix_refl _) _ _ h
+    (h : UnderByG segs id u v) :
+    keyStemsG sp segs true u <+: keyStemsG sp segs true v := by
+  rw [keyStemsG_prefix_iff sp segs true u v hnu hwu hwv]
+  apply under_to_nestedG segs id u v (fun e => by rw [e]; exact List.prefix_refl _) _ _ h
   · intro e
     simp only [id] at e
     simp only [hostStems_spec, if_true]
@@ -462,6 +459,21 @@ theorem stems_prefix_of_under_sub (sp : Str → Option (Str × Str)) (u v : Part
       rw [hsu du s a, hsv dv s b, hpre, lower_append, lower_cons]
       simp [lowerChar]
 
+/-- **forward, `suffix_aware = True`, the hypotheses only where they are needed**: when the two
+hosts are equal nothing is asked of `split_suffix`; when `v`'s host is a strict subdomain, the
+hosts are names, C08's clause holds for both and the public suffix is the same.  (Generalises
+`stems_prefix_of_under_partial`.) -/
+theorem stems_prefix_of_under_sub (sp : Str → Option (Str × Str)) (u v : Parts)
+    (hwu : wfNetloc u.netloc = true) (hwv : wfNetloc v.netloc = true)
+    (hnu : noUserinfo u.netloc = true)
+    (hsub : strictSub (specHost u.netloc) (specHost v.netloc) = true →
+      labelHost (specHost u.netloc) = true ∧ labelHost (specHost v.netloc) = true ∧
+        SplitLaw sp u.netloc ∧ SplitLaw sp v.netloc ∧ SameSuffixSplit sp u.netloc v.netloc)
+    (h : Under u v) :
+    cleanTrailingPath (lruStems sp true u) <+: cleanTrailingPath (lruStems sp true v) := by
+  rw [clean_lruStems, clean_lruStems, keyStems_eq_G, keyStems_eq_G]
+  exact (keyG_prefix_of_under_sub sp cleanSegs u v hwu hwv hnu hsub h).map render
+
 /-- the hosts of the suffix-aware forward law: DNS names, `u`'s host outside `v`'s public suffix
 (by the list) — or the same public suffix anyway (`co.uk` / `a.co.uk`) -/
 def PslNames (lines : List Str) (nu nv : Str) : Prop :=
@@ -470,18 +482,14 @@ def PslNames (lines : List Str) (nu nv : Str) : Prop :=
     (outsideSuffixT (SuffixTrie.build lines) nu nv = true ∨
       SameSuffixSplit (pslSplit lines) nu nv)
 
-/-- **forward, `suffix_aware = True`, with suffix_trie.py inside** (every suffix list): if `v`
-lies under `u` and — when `v`'s host is a strict subdomain of `u`'s — both are DNS names with
-`u`'s host outside `v`'s public suffix (or with the same public suffix), the stems of `u` (empty
-path stems aside) are a prefix of the stems of `v`.  Nothing is assumed about `split_suffix`. -/
-theorem stems_prefix_of_under_psl (lines : List Str) (u v : Parts)
+/-- what `PslNames` gives when `v`'s host is a strict subdomain of `u`'s (equal hosts are not) -/
+theorem sub_hyps_psl (lines : List Str) (u v : Parts)
     (hwu : wfNetloc u.netloc = true) (hwv : wfNetloc v.netloc = true)
-    (hnu : noUserinfo u.netloc = true)
-    (hhosts : specHost u.netloc = specHost v.netloc ∨ PslNames lines u.netloc v.netloc)
-    (h : Under u v) :
-    cleanTrailingPath (lruStems (pslSplit lines) true u) <+:
-      cleanTrailingPath (lruStems (pslSplit lines) true v) := by
-  apply stems_prefix_of_under_sub (pslSplit lines) u v hwu hwv hnu _ h
+    (hhosts : specHost u.netloc = specHost v.netloc ∨ PslNames lines u.netloc v.netloc) :
+    strictSub (specHost u.netloc) (specHost v.netloc) = true →
+      labelHost (specHost u.netloc) = true ∧ labelHost (specHost v.netloc) = true ∧
+        SplitLaw (pslSplit lines) u.netloc ∧ SplitLaw (pslSplit lines) v.netloc ∧
+        SameSuffixSplit (pslSplit lines) u.netloc v.netloc := by
   intro hs
   rcases hhosts with e | ⟨l1, l2, d1, d2, hreg⟩
   · -- equal hosts are not strict subdomains of each other
@@ -496,28 +504,82 @@ theorem stems_prefix_of_under_psl (lines : List Str) (u v : Parts)
     · exact sameSuffixSplit_of_outside lines _ _ hwu hwv d1 d2 hs ho
     · exact hsame
 
-/-- … and the serialised LRU of `u` is a string prefix of that of `v` (`|`-free URLs) -/
+/-- **forward, `suffix_aware = True`, with suffix_trie.py inside** (every suffix list): if `v`
+lies under `u` and — when `v`'s host is a strict subdomain of `u`'s — both are DNS names with
+`u`'s host outside `v`'s public suffix (or with the same public suffix), the stems of `u` (empty
+path stems aside) are a prefix of the stems of `v`.  Nothing is assumed about `split_suffix`. -/
+theorem stems_prefix_of_under_psl (lines : List Str) (u v : Parts)
+    (hwu : wfNetloc u.netloc = true) (hwv : wfNetloc v.netloc = true)
+    (hnu : noUserinfo u.netloc = true)
+    (hhosts : specHost u.netloc = specHost v.netloc ∨ PslNames lines u.netloc v.netloc)
+    (h : Under u v) :
+    cleanTrailingPath (lruStems (pslSplit lines) true u) <+:
+      cleanTrailingPath (lruStems (pslSplit lines) true v) :=
+  stems_prefix_of_under_sub (pslSplit lines) u v hwu hwv hnu
+    (sub_hyps_psl lines u v hwu hwv hhosts) h
+
+/-- **the RAW stems, `suffix_aware = True`, suffix_trie.py inside**: the same for `lru_stems(u)` as
+it is returned (no `clean_trailing_path`), when `v` lies under `u` with the path segments read as
+they are (`UnderRaw`) -/
+theorem stems_prefix_of_under_raw_psl (lines : List Str) (u v : Parts)
+    (hwu : wfNetloc u.netloc = true) (hwv : wfNetloc v.netloc = true)
+    (hnu : noUserinfo u.netloc = true)
+    (hhosts : specHost u.netloc = specHost v.netloc ∨ PslNames lines u.netloc v.netloc)
+    (h : UnderRaw u v) :
+    lruStems (pslSplit lines) true u <+: lruStems (pslSplit lines) true v := by
+  rw [lruStems_eq_G, lruStems_eq_G]
+  exact (keyG_prefix_of_under_sub (pslSplit lines) rawSegs u v hwu hwv hnu
+    (sub_hyps_psl lines u v hwu hwv hhosts) h).map render
+
+/-- the stems of every 5-tuple without `|` are well formed (non-empty, tagged, `|`-free), both
+modes, with suffix_trie.py inside: nothing assumed about the split, any host -/
+theorem stems_ok_psl (lines : List Str) (sa : Bool) (p : Parts) (hb : noBar p = true) :
+    StemsOK (lruStems (pslSplit lines) sa p) := by
+  apply C12.stems_wellformed_of_split (pslSplit lines) sa p hb
+  intro _ _
+  apply split_nobar_psl lines
+  intro hm
+  simp only [noBar, Bool.and_eq_true] at hb
+  have := noneOf_iff.mp hb.1.1.1.2 _ hm
+  simp at this
+
+/-- … and the serialisation of the cleaned stems of `u` is a string prefix of that of `v`
+(`|`-free URLs; equal hosts — bracketed literals, trailing dots, … — included: no hypothesis
+about `split_suffix`) -/
 theorem lru_prefix_of_under_psl (lines : List Str) (u v : Parts)
     (hwu : wfNetloc u.netloc = true) (hwv : wfNetloc v.netloc = true)
     (hnu : noUserinfo u.netloc = true)
     (hhosts : specHost u.netloc = specHost v.netloc ∨ PslNames lines u.netloc v.netloc)
-    (hlu : SplitLaw (pslSplit lines) u.netloc) (hlv : SplitLaw (pslSplit lines) v.netloc)
     (hbu : noBar u = true) (hbv : noBar v = true) (h : Under u v) :
     serializeLru (cleanTrailingPath (lruStems (pslSplit lines) true u)) <+:
       serializeLru (cleanTrailingPath (lruStems (pslSplit lines) true v)) := by
-  have cu := clean_stems_ok (pslSplit lines) true u hbu (fun _ => hlu)
-  have cv := clean_stems_ok (pslSplit lines) true v hbv (fun _ => hlv)
+  have cu := clean_stems_ok_of (pslSplit lines) true u (stems_ok_psl lines true u hbu)
+  have cv := clean_stems_ok_of (pslSplit lines) true v (stems_ok_psl lines true v hbv)
   rw [serialize_prefix_iff _ _ cu.1 cv.1 cu.2 cv.2]
   exact stems_prefix_of_under_psl lines u v hwu hwv hnu hhosts h
 
-/-- **on URL strings** (the parser inside the model), for DNS-name hosts: `lru_stems(u)` (empty
-path stems aside) is a prefix of `lru_stems(v)` and `url_to_lru(u)` (cleaned) a string prefix —
-`split_suffix` being suffix_trie.py on any suffix list -/
+/-- **`url_to_lru(u)` itself (empty path stems kept) is a string prefix of `url_to_lru(v)`**,
+`suffix_aware = True`, suffix_trie.py inside, for `UnderRaw` -/
+theorem lru_prefix_of_under_raw_psl (lines : List Str) (u v : Parts)
+    (hwu : wfNetloc u.netloc = true) (hwv : wfNetloc v.netloc = true)
+    (hnu : noUserinfo u.netloc = true)
+    (hhosts : specHost u.netloc = specHost v.netloc ∨ PslNames lines u.netloc v.netloc)
+    (hbu : noBar u = true) (hbv : noBar v = true) (h : UnderRaw u v) :
+    serializeLru (lruStems (pslSplit lines) true u) <+:
+      serializeLru (lruStems (pslSplit lines) true v) := by
+  have ou := stems_ok_psl lines true u hbu
+  have ov := stems_ok_psl lines true v hbv
+  rw [serialize_prefix_iff _ _ ou.ne ov.ne ou.nobar ov.nobar]
+  exact stems_prefix_of_under_raw_psl lines u v hwu hwv hnu hhosts h
+
+/-- **on URL strings** (the parser inside the model): `lru_stems(u)` (empty path stems aside) is a
+prefix of `lru_stems(v)` and the serialisation of the cleaned stems a string prefix —
+`split_suffix` being suffix_trie.py on any suffix list; hosts equal (whatever they are), or
+`PslNames` -/
 theorem lru_prefix_of_under_psl_string (lines : List Str) (u v : Str) (hbu : '|' ∉ u) (hbv : '|' ∉ v)
     (pu pv : Parts) (hu : urlParts u = some pu) (hv : urlParts v = some pv)
     (hwu : wfNetloc pu.netloc = true) (hwv : wfNetloc pv.netloc = true)
     (hnu : noUserinfo pu.netloc = true)
-    (hdu : dnsName (specHost pu.netloc) = true) (hdv : dnsName (specHost pv.netloc) = true)
     (hhosts : specHost pu.netloc = specHost pv.netloc ∨ PslNames lines pu.netloc pv.netloc)
     (h : Under pu pv) :
     ∃ su sv, lruStemsUrl (pslSplit lines) true u = some su ∧
@@ -526,8 +588,48 @@ theorem lru_prefix_of_under_psl_string (lines : List Str) (u v : Str) (hbu : '|'
       serializeLru (cleanTrailingPath su) <+: serializeLru (cleanTrailingPath sv) :=
   ⟨_, _, stemsUrl_of_parts _ true hu, stemsUrl_of_parts _ true hv,
     stems_prefix_of_under_psl lines pu pv hwu hwv hnu hhosts h,
-    lru_prefix_of_under_psl lines pu pv hwu hwv hnu hhosts (splitLaw_psl lines _ hwu hdu)
-      (splitLaw_psl lines _ hwv hdv) (C12.noBar_of_url hu hbu) (C12.noBar_of_url hv hbv) h⟩
+    lru_prefix_of_under_psl lines pu pv hwu hwv hnu hhosts (C12.noBar_of_url hu hbu)
+      (C12.noBar_of_url hv hbv) h⟩
+
+/-- **forward for the real `lru_stems` / `url_to_lru`, on URL strings, `suffix_aware = True`**,
+suffix_trie.py inside: for `UnderRaw`, `lru_stems(u)` is a prefix of `lru_stems(v)` and the string
+`url_to_lru(u)` a prefix of the string `url_to_lru(v)` -/
+theorem url_to_lru_prefix_of_under_psl_string (lines : List Str) (u v : Str) (hbu : '|' ∉ u)
+    (hbv : '|' ∉ v) (pu pv : Parts) (hu : urlParts u = some pu) (hv : urlParts v = some pv)
+    (hwu : wfNetloc pu.netloc = true) (hwv : wfNetloc pv.netloc = true)
+    (hnu : noUserinfo pu.netloc = true)
+    (hhosts : specHost pu.netloc = specHost pv.netloc ∨ PslNames lines pu.netloc pv.netloc)
+    (h : UnderRaw pu pv) :
+    ∃ su sv lu lv, lruStemsUrl (pslSplit lines) true u = some su ∧
+      lruStemsUrl (pslSplit lines) true v = some sv ∧
+      urlToLru (pslSplit lines) true u = some lu ∧ urlToLru (pslSplit lines) true v = some lv ∧
+      su <+: sv ∧ lu <+: lv :=
+  ⟨_, _, _, _, stemsUrl_of_parts _ true hu, stemsUrl_of_parts _ true hv,
+    urlToLru_of_parts _ true hu, urlToLru_of_parts _ true hv,
+    stems_prefix_of_under_raw_psl lines pu pv hwu hwv hnu hhosts h,
+    lru_prefix_of_under_raw_psl lines pu pv hwu hwv hnu hhosts (C12.noBar_of_url hu hbu)
+      (C12.noBar_of_url hv hbv) h⟩
+
+/-- **stem-list prefix ⇔ string prefix of `url_to_lru`, both modes**, for the LRUs of two `|`-free
+URL strings — no grammar restriction, `split_suffix` being suffix_trie.py on any suffix list
+(`url_to_lru_prefix_iff` is the statement for `suffix_aware = False` and any `split_suffix`) -/
+theorem url_to_lru_prefix_iff_psl (lines : List Str) (sa : Bool) (u v : Str) (hbu : '|' ∉ u)
+    (hbv : '|' ∉ v) (su sv : List Str)
+    (hsu : lruStemsUrl (pslSplit lines) sa u = some su)
+    (hsv : lruStemsUrl (pslSplit lines) sa v = some sv) :
+    ∃ lu lv, urlToLru (pslSplit lines) sa u = some lu ∧ urlToLru (pslSplit lines) sa v = some lv ∧
+      (lu <+: lv ↔ su <+: sv) := by
+  have nbn : ∀ {w : Str} {p : Parts}, urlParts w = some p → '|' ∉ w → '|' ∉ p.netloc := by
+    intro w p hp hb hm
+    have nb := C12.noBar_of_url hp hb
+    simp only [noBar, Bool.and_eq_true] at nb
+    have := noneOf_iff.mp nb.1.1.1.2 _ hm
+    simp at this
+  obtain ⟨ou, eu, _⟩ := C12.serialization_string_of_split (pslSplit lines) sa u hbu
+    (fun _ p hp => split_nobar_psl lines (nbn hp hbu)) su hsu
+  obtain ⟨ov, ev, _⟩ := C12.serialization_string_of_split (pslSplit lines) sa v hbv
+    (fun _ p hp => split_nobar_psl lines (nbn hp hbv)) sv hsv
+  exact ⟨_, _, eu, ev, serialize_prefix_iff su sv ou.ne ov.ne ou.nobar ov.nobar⟩
 
 /-! ## non-vacuity, and the region that is excluded -/
 
